@@ -30,3 +30,38 @@ Lemma ex_sel :
   sel_convert ex_mesh 0 (SPoint 1) = OK (IPlane 1) /\ sel_convert ex_mesh 0 SCentre = OK (IPlane 1) /\
   is_ok (sel_convert ex_mesh 0 (SPoint (5 # 2))) = false.
 Proof. repeat split; vm_compute; reflexivity. Qed.
+
+(* ---- phase 2 witnesses ---- *)
+From DF Require Import C07_pad C07_accept C07_ops.
+
+Lemma ex_wf : wf_mesh ex_mesh /\ subs_wf ex_mesh.
+Proof.
+  split.
+  - unfold wf_mesh, wf_region, ex_mesh; simpl. repeat split; try lia.
+    + repeat constructor; simpl; intuition congruence.
+    + repeat constructor; unfold Qlt; simpl; lia.
+    + unfold Qle; simpl; lia.
+    + repeat constructor; lia.
+  - intros nr H. destruct H.
+Qed.
+
+Lemma ex_range_region :
+  exists m', mesh_sel_range ex_mesh 1 0 1 = OK m' /\ qlist_eqb (pmin (reg m')) [0; 0] = true /\
+             qlist_eqb (pmax (reg m')) [2; 2] = true /\ n m' = [2%Z; 2%Z].
+Proof. eexists. split; [vm_compute; reflexivity|]. vm_compute. repeat split. Qed.
+
+Lemma ex_plane_mesh :
+  exists m', mesh_sel_plane ex_mesh 0 1 = OK m' /\ pmin (reg m') = [0] /\ pmax (reg m') = [3] /\
+             dims (reg m') = ["y"%string] /\ n m' = [3%Z].
+Proof. eexists. split; [vm_compute; reflexivity|]. repeat split. Qed.
+
+Lemma ex_pad_modes :
+  pad_src PSymmetric 3 (-5) = Some 1%Z /\ pad_src PSymmetric 3 10 = Some 1%Z /\
+  pad_src PReflect 3 (-7) = Some 1%Z /\ pad_src PReflect 3 10 = Some 2%Z /\
+  mirror_sym 3 (4 mod (2 * 3)) = 1%Z /\ mirror_ref 3 (7 mod (2 * 3 - 2)) = 1%Z.
+Proof. repeat split; vm_compute; reflexivity. Qed.
+
+Lemma ex_pad_accept :
+  exists m', mesh_pad ex_mesh [(1, 0); (0, 2)]%Z = OK m' /\ n m' = [3%Z; 5%Z] /\
+             qlist_eqb (pmin (reg m')) [-(1); 0] = true /\ qlist_eqb (pmax (reg m')) [2; 5] = true.
+Proof. eexists. split; [vm_compute; reflexivity|]. vm_compute. repeat split. Qed.
